@@ -12,16 +12,31 @@ class _Svc:
         vtrace.ckin(self.name, data)
         vtrace.ev('cksum_in', len(data))
         c = zlib.crc32(data) & 0xffffffff
-        if self.name == 'SUM8':
+        n = self.name
+        if n == 'SUM8':
             return sum(data) & 0xff
-        if self.name == 'CRC16':
+        if n == 'CRC16':
             return c & 0xffff
-        if self.name == 'CRC32':
+        if n == 'CRC32':
             return c
-        return (c << 32) | (c ^ 0xffffffff)
+        if n == 'CRC64':
+            return (c << 32) | (c ^ 0xffffffff)
+        if n == 'Xor8':
+            x = 0
+            for b in data:
+                x ^= b
+            return x
+        if n == 'Add16':
+            return sum(data) & 0xffff
+        if n == 'Mix32':
+            return c ^ 0x5a5a5a5a
+        return ((c << 32) | c) ^ 0x0123456789abcdef
+
+
+REGISTERED = ('SUM8', 'CRC16', 'CRC32', 'CRC64', 'Xor8', 'Add16', 'Mix32', 'Mix64')   # case-sensitive
 
 
 def create_checksum_service(name):
-    if name in ('SUM8', 'CRC16', 'CRC32', 'CRC64'):
+    if name in REGISTERED:
         return _Svc(name)
     return None
